@@ -34,6 +34,7 @@ func (ctx *Ctx) GenVC(fc *FuncContract) (res *FuncResult) {
 		return res
 	}
 	ctx.closures = map[string]*closureInfo{}
+	useCoreTypes = fc.CoreTypes
 	if fc.Kind == "lemma" {
 		ctx.genLemma(fc, res)
 		return res
@@ -66,7 +67,7 @@ func (ctx *Ctx) GenVC(fc *FuncContract) (res *FuncResult) {
 		fr.vals[p] = t
 		vc.paramTerms = append(vc.paramTerms, t)
 		entry.assume(vc.rangeAssumption(t, p.Type(), entry.alloc))
-		if _, isSl := p.Type().Underlying().(*types.Slice); isSl {
+		if _, isSl := U(p.Type()).(*types.Slice); isSl {
 			entry.assume(Implies(Neq(Rid(SBase(t)), IntLit(0)), Lt(App(SInt, "otype", Rid(SBase(t))), IntLit(0))))
 			vc.assume("slice parameters are backed by array allocations of their own (not by part of a struct object)")
 		}
@@ -77,7 +78,7 @@ func (ctx *Ctx) GenVC(fc *FuncContract) (res *FuncResult) {
 		for _, in := range b.Instrs {
 			if v, ok := in.(ssa.Value); ok {
 				t := v.Type()
-				if p, ok := t.Underlying().(*types.Pointer); ok {
+				if p, ok := U(t).(*types.Pointer); ok {
 					t = p.Elem()
 				}
 				if _, isTuple := t.(*types.Tuple); !isTuple {
@@ -195,7 +196,7 @@ func (ctx *Ctx) frameObligation(vc *VC, fr *Frame, fc *FuncContract, exit *State
 				vc.note("contract error: modifies: %v", err)
 				continue
 			}
-			sl, ok := x.Ty.Underlying().(*types.Slice)
+			sl, ok := U(x.Ty).(*types.Slice)
 			if !ok {
 				bad = true
 				continue
